@@ -325,6 +325,9 @@ func (s *setGenerator) zapMarshaler(
 	fieldValue string,
 ) (string, error) {
 	name := zapperName(g, root)
+	if zapperDeclared(g, name) {
+		return fmt.Sprintf("(%v)(%v)", name, fieldValue), nil
+	}
 	if err := g.EnsureDeclared(
 		`
 			<$zapcore := import "go.uber.org/zap/zapcore">
@@ -357,5 +360,6 @@ func (s *setGenerator) zapMarshaler(
 	); err != nil {
 		return "", err
 	}
+	markZapperDeclared(g, name)
 	return fmt.Sprintf("(%v)(%v)", name, fieldValue), nil
 }
